@@ -25,7 +25,7 @@
      itself and keeps the set of interned types.
    - the MVCC version is constant in C06 histories (no transaction commits), so a
      node's version chain has at most one entry: [nodes id : option node]. *)
-From Coq Require Import List NArith Bool.
+From Coq Require Import List NArith Bool PeanoNat Arith.
 From Verif Require Import CheckLib.
 Import ListNotations.
 Open Scope N_scope.
@@ -76,13 +76,17 @@ Record estate := {
   interned : list N;                 (* edge_type_to_id keys *)
   bout : list aent;                  (* outgoing write buffer *)
   bin : list aent;                   (* incoming write buffer *)
-  fout : list aent;                  (* frozen outgoing segments, concatenated *)
-  fin : list aent;                   (* frozen incoming segments, concatenated *)
+  fsegs_out : list (list aent);      (* frozen outgoing CSR segments, oldest first *)
+  fsegs_in : list (list aent);       (* frozen incoming CSR segments *)
   fdead : N;                         (* frozen_dead_edges *)
   unsorted : list N;                 (* ghost: nodes whose outgoing slice got a stub append since
                                         the last compaction *)
   tstale : bool                      (* ghost: a stub edge since the last finish_bulk_load *)
 }.
+
+(* all frozen entries of a direction, segment after segment *)
+Definition fout (s : estate) : list aent := concat (fsegs_out s).
+Definition fin (s : estate) : list aent := concat (fsegs_in s).
 
 Record state := { ns : nstate; es : estate }.
 
@@ -91,7 +95,7 @@ Definition init : state :=
               lidx := [] |};
      es := {| endp := fun _ => (0, 0); etype := fun _ => None; eprops := fun _ => None;
               ecols := fun _ => []; next_edge := 1; free_edges := []; tidx := []; interned := [];
-              bout := []; bin := []; fout := []; fin := []; fdead := 0;
+              bout := []; bin := []; fsegs_out := []; fsegs_in := []; fdead := 0;
               unsorted := []; tstale := false |} |}.
 
 (* ---------- results ---------- *)
@@ -188,6 +192,31 @@ Definition get_edge (s : estate) (e : N) : option (N * N * N * props) :=
     end
   else None.
 
+(* sorted insert into a node's write-buffer slice (create_edge: binary_search_by_key on the
+   neighbour id, insert at the returned position).  In the flat list the new entry goes before
+   the first entry of the same node whose neighbour id is >= the new one, i.e. at the lower
+   bound of its slice; std may pick any position inside a run of equal neighbour ids, which
+   changes the order inside that run only (views are compared as bags). *)
+Fixpoint ins_sorted (x : aent) (l : list aent) : list aent :=
+  match l with
+  | [] => [x]
+  | y :: r => if N.eqb (a_node y) (a_node x) && N.leb (a_nbr x) (a_nbr y) then x :: l
+              else y :: ins_sorted x r
+  end.
+
+(* create_edge_stub: push at the end, unsorted *)
+Definition buf_add (stub : bool) (x : aent) (l : list aent) : list aent :=
+  if stub then l ++ [x] else ins_sorted x l.
+
+(* FrozenAdjacency::from_vec_of_vec: every node's slice stably sorted by neighbour id.  A stable
+   insertion sort of the flat list by neighbour id sorts every slice and keeps its ties in order. *)
+Fixpoint ins_nbr (x : aent) (l : list aent) : list aent :=
+  match l with
+  | [] => [x]
+  | y :: r => if N.leb (a_nbr x) (a_nbr y) then x :: l else y :: ins_nbr x r
+  end.
+Definition sort_nbr (l : list aent) : list aent := fold_right ins_nbr [] l.
+
 (* create_edge / create_edge_with_properties / create_edge_stub after endpoint validation *)
 Definition add_edge (s : estate) (hint a b t : N) (ps : props) (stub : bool) : estate * N :=
   let '(id, fr, nx) := alloc (free_edges s) (next_edge s) hint in
@@ -198,9 +227,9 @@ Definition add_edge (s : estate) (hint a b t : N) (ps : props) (stub : bool) : e
       next_edge := nx; free_edges := fr;
       tidx := if stub then tidx s else pset_add (t, id) (tidx s);
       interned := set_add t (interned s);
-      bout := {| a_node := a; a_nbr := b; a_eid := id |} :: bout s;
-      bin := {| a_node := b; a_nbr := a; a_eid := id |} :: bin s;
-      fout := fout s; fin := fin s; fdead := fdead s;
+      bout := buf_add stub {| a_node := a; a_nbr := b; a_eid := id |} (bout s);
+      bin := buf_add stub {| a_node := b; a_nbr := a; a_eid := id |} (bin s);
+      fsegs_out := fsegs_out s; fsegs_in := fsegs_in s; fdead := fdead s;
       unsorted := if stub then set_add a (unsorted s) else unsorted s;
       tstale := tstale s || stub |}, id).
 
@@ -229,7 +258,7 @@ Definition delete_edge (s : estate) (e : N) : estate * res :=
           interned := interned s;
           bout := bout';
           bin := filter (not_entry b e) (bin s);
-          fout := fout s; fin := fin s;
+          fsegs_out := fsegs_out s; fsegs_in := fsegs_in s;
           fdead := if in_buffer then fdead s else fdead s + 1;
           unsorted := unsorted s; tstale := tstale s |}, ROk 0)
   end.
@@ -241,7 +270,7 @@ Definition set_eprop (s : estate) (e k v : N) : estate * res :=
         eprops := upd (eprops s) e (Some (pset k v (match eprops s e with Some p => p | None => [] end)));
         ecols := upd (ecols s) e (pset k v (ecols s e));
         next_edge := next_edge s; free_edges := free_edges s; tidx := tidx s;
-        interned := interned s; bout := bout s; bin := bin s; fout := fout s; fin := fin s;
+        interned := interned s; bout := bout s; bin := bin s; fsegs_out := fsegs_out s; fsegs_in := fsegs_in s;
         fdead := fdead s; unsorted := unsorted s; tstale := tstale s |}, ROk 0)
   else (s, RErr E_EDGE_NOT_FOUND).
 
@@ -254,7 +283,7 @@ Definition rem_eprop (s : estate) (e k : N) : estate :=
                else eprops s;
      ecols := upd (ecols s) e (prem k (ecols s e));
      next_edge := next_edge s; free_edges := free_edges s; tidx := tidx s;
-     interned := interned s; bout := bout s; bin := bin s; fout := fout s; fin := fin s;
+     interned := interned s; bout := bout s; bin := bin s; fsegs_out := fsegs_out s; fsegs_in := fsegs_in s;
      fdead := fdead s; unsorted := unsorted s; tstale := tstale s |}.
 
 (* compact_adjacency *)
@@ -263,13 +292,13 @@ Definition compact (s : estate) : estate :=
   | [], [] =>                         (* nothing to compact; empty slices are sorted *)
       {| endp := endp s; etype := etype s; eprops := eprops s; ecols := ecols s;
          next_edge := next_edge s; free_edges := free_edges s; tidx := tidx s;
-         interned := interned s; bout := []; bin := []; fout := fout s; fin := fin s;
+         interned := interned s; bout := []; bin := []; fsegs_out := fsegs_out s; fsegs_in := fsegs_in s;
          fdead := fdead s; unsorted := []; tstale := tstale s |}
   | _, _ =>
       {| endp := endp s; etype := etype s; eprops := eprops s; ecols := ecols s;
          next_edge := next_edge s; free_edges := free_edges s; tidx := tidx s;
          interned := interned s; bout := []; bin := [];
-         fout := fout s ++ bout s; fin := fin s ++ bin s;
+         fsegs_out := fsegs_out s ++ [sort_nbr (bout s)]; fsegs_in := fsegs_in s ++ [sort_nbr (bin s)];
          fdead := fdead s; unsorted := []; tstale := tstale s |}
   end.
 
@@ -291,7 +320,7 @@ Definition finish_bulk (s : estate) : estate :=
   let c := compact s in
   {| endp := endp c; etype := etype c; eprops := eprops c; ecols := ecols c;
      next_edge := next_edge c; free_edges := free_edges c; tidx := rebuild_tidx c;
-     interned := interned c; bout := bout c; bin := bin c; fout := fout c; fin := fin c;
+     interned := interned c; bout := bout c; bin := bin c; fsegs_out := fsegs_out c; fsegs_in := fsegs_in c;
      fdead := fdead c; unsorted := unsorted c; tstale := false |}.
 
 Definition delete_edge_ignore (s : estate) (e : N) : estate := fst (delete_edge s e).
@@ -398,18 +427,93 @@ Definition in_degree (s : state) (n t : N) : N :=
   if memN t (interned (es s)) then N.of_nat (length (filter (type_is (es s) t) (adj_in (es s) n)))
   else 0.
 
-(* edges_between (sorted slices: the entries whose neighbour is the key) *)
-Definition edges_between (s : state) (a b : N) (ty : option N) : list N :=
-  flat_map (fun x =>
-              if N.eqb (a_nbr x) b then
-                match get_edge (es s) (a_eid x) with
-                | Some (a', b', t, _) =>
-                    if N.eqb a' a && N.eqb b' b &&
-                       match ty with Some t' => N.eqb t t' | None => true end
-                    then [a_eid x] else []
-                | None => []
-                end
-              else []) (adj_out (es s) a).
+(* specification of edges_between: the entries of the source's slices whose neighbour is the
+   target and whose relationship resolves to (a, b) with an accepted type *)
+Definition match_entry (s : estate) (a b : N) (ty : option N) (x : aent) : list N :=
+  match get_edge s (a_eid x) with
+  | Some (a', b', t, _) =>
+      if N.eqb a' a && N.eqb b' b && match ty with Some t' => N.eqb t t' | None => true end
+      then [a_eid x] else []
+  | None => []
+  end.
+
+Definition edges_between_spec (s : state) (a b : N) (ty : option N) : list N :=
+  flat_map (fun x => if N.eqb (a_nbr x) b then match_entry (es s) a b ty x else [])
+           (adj_out (es s) a).
+
+(* ---- search_adjacency_slice as written ----
+   slice::binary_search_by_key (std >= 1.82: branch-free halving loop, then one final compare),
+   walk back to the first entry of the equal run, scan forward while the neighbour matches. *)
+Definition dummy_ent : aent := {| a_node := 0; a_nbr := 0; a_eid := 0 |}.
+Definition nbr_at (l : list aent) (i : nat) : N := a_nbr (nth i l dummy_ent).
+
+(* while size > 1 { half = size/2; mid = base+half; base = if l[mid] > key {base} else {mid}; size -= half } *)
+Fixpoint bs_loop (fuel : nat) (l : list aent) (key : N) (base size : nat) : option nat :=
+  match fuel with
+  | O => None                                        (* out of fuel: explicit, never a result *)
+  | S f =>
+      if Nat.leb size 1 then Some base
+      else let half := Nat.div2 size in
+           let mid := (base + half)%nat in
+           bs_loop f l key (if N.ltb key (nbr_at l mid) then base else mid) (size - half)%nat
+  end.
+
+Inductive bsres := BsOk (pos : nat) | BsErr (pos : nat) | BsFuel.
+
+(* ceil(log2 n) halvings, plus the step that sees size <= 1 *)
+Definition bs_fuel (n : nat) : nat := S (Nat.log2_up n).
+
+Definition binary_search (l : list aent) (key : N) : bsres :=
+  match l with
+  | [] => BsErr 0
+  | _ =>
+      match bs_loop (bs_fuel (length l)) l key 0 (length l) with
+      | None => BsFuel
+      | Some base =>
+          if N.eqb (nbr_at l base) key then BsOk base
+          else BsErr (base + if N.ltb (nbr_at l base) key then 1 else 0)
+      end
+  end.
+
+(* while p > 0 && entries[p-1].0 == key { p -= 1 } *)
+Fixpoint walk_back (l : list aent) (key : N) (p : nat) : nat :=
+  match p with
+  | O => O
+  | S q => if N.eqb (nbr_at l q) key then walk_back l key q else p
+  end.
+
+(* for i in start.. { if nid != key { break } .. } *)
+Fixpoint take_run (key : N) (l : list aent) : list aent :=
+  match l with
+  | [] => []
+  | x :: r => if N.eqb (a_nbr x) key then x :: take_run key r else []
+  end.
+
+(* the entries the scan visits; None = the binary search ran out of fuel *)
+Definition search_run (l : list aent) (key : N) : option (list aent) :=
+  match binary_search l key with
+  | BsFuel => None
+  | BsErr _ => Some []
+  | BsOk pos => Some (take_run key (skipn (walk_back l key pos) l))
+  end.
+
+Definition search_slice (s : estate) (entries : list aent) (a b : N) (ty : option N) : option (list N) :=
+  match search_run entries b with
+  | None => None
+  | Some run => Some (flat_map (match_entry s a b ty) run)
+  end.
+
+Fixpoint concat_opt {A} (l : list (option (list A))) : option (list A) :=
+  match l with
+  | [] => Some []
+  | None :: _ => None
+  | Some x :: r => match concat_opt r with Some y => Some (x ++ y) | None => None end
+  end.
+
+(* edges_between: each frozen segment searched on its own, then the write buffer *)
+Definition edges_between (s : state) (a b : N) (ty : option N) : option (list N) :=
+  concat_opt (map (fun seg => search_slice (es s) (slice seg a) a b ty) (fsegs_out (es s)) ++
+              [search_slice (es s) (slice (bout (es s)) a) a b ty]).
 
 (* get_nodes_by_label: ids *)
 Definition nodes_by_label (s : state) (l : N) : list N :=
@@ -569,15 +673,18 @@ Definition dump_node (s : state) (n : N) : list (list N) :=
 Definition dump_edge (s : state) (e : N) : list (list N) :=
   [ edge_row (get_edge (es s) e); props_row (ecols (es s) e) ].
 
+Definition between_row (o : option (list N)) : list N :=
+  match o with Some r => ids_row r | None => [15; 15; 15] end.      (* fuel exhaustion never matches *)
+
 Definition dump_between (s : state) (maxn : N) : list (list N) :=
   flat_map (fun a =>
     if memN a (unsorted (es s)) then [] else
     flat_map (fun b =>
       let r := edges_between s a b None in
-      ids_row r ::
+      between_row r ::
       match r with
-      | [] => []
-      | _ => map (fun t => ids_row (edges_between s a b (Some t))) TYPES
+      | Some [] => []
+      | _ => map (fun t => between_row (edges_between s a b (Some t))) TYPES
       end) (range_from 1 (N.to_nat maxn))) (range_from 1 (N.to_nat maxn)).
 
 (* ids 0..maxn and 0..maxe are dumped; edges_between is dumped for every source node whose
